@@ -4,6 +4,7 @@
 
 mod common;
 mod conc;
+mod dishonest;
 mod explore;
 mod gate;
 mod model;
